@@ -16,7 +16,7 @@ from ..loader import AnalysisError, Program
 from ..model import Model
 from ..report import Run
 from ..values import (ELL, Const, DictV, Inst, ListV, PropsV, SchemaV, Sym, Term, TupleV, V, is_ell)
-from ..visits import (Config, configs_for, list_shapes, member, run_visit, substitutor_ctx, validator_ctx)
+from ..visits import (key_tables, Config, configs_for, list_shapes, member, run_visit, substitutor_ctx, validator_ctx)
 from ..vtable import lossy_image, surplus_reported, Row, canonical, comparison_operands, dedupe, extract, relation
 
 TYPE = {"visit_none": "NoneType", "visit_bool": "bool", "visit_int": "int", "visit_float": "float", "visit_str": "str",
@@ -49,8 +49,11 @@ def check(run: Run, prog: Program, model: Model, tier: str) -> None:
         "SubstitutorValidator must equal Validator minus missing-key reporting and placeholder skipping. "
         "Window arithmetic and the verdict over nested values are not decided."
         " Also decided: the key table DictSchema.__call__ builds (flag per entry), the relation of every bound check in every prop combination (not on a lossy image of the value), surplus positions of an exact element list also when length props are carried, the documented float tolerance.")
+    run.explanation += " DECL-STORES: on the declaration automaton every accepting path of a well-typed call shape reaches the shape's prop-set. MEMBER-VISITED: on every returning path of visit_list (exact lists) / visit_dict (keyed tables) each declared member is dispatched to, reported missing or absent by a fact. RESULT-ACC: all sequences (<= 3) of add_error / add_errors([]) / add_errors([x, y]), with and without initial errors."
     run.rule_text = ("one obligation per (visitor, type, prop) row, per (prop-set, prop) presence, per key-table / shape / "
                      "alternative configuration; non-trivial = predicate extracted from interpreter paths and compared as a relation")
+    from ..entry import entry_transparent
+    entry_transparent(run, prog, model, "validate", "VALIDATE-ENTRY")
     run.trusted += ["the frozen constraint table (transcribed from the property statement)"]
     unroll = 1
     for vis in VALIDATORS:
@@ -181,6 +184,8 @@ def check(run: Run, prog: Program, model: Model, tier: str) -> None:
         _uuid(run, prog, model, vis)
     _list_forms(run, prog, model, tier)
     _dict_decl(run, prog, model)
+    _decl_stores(run, prog, model, tier)
+    _member_visited(run, prog, model, "Validator")
     _sibling(run, prog, model)
     _result_acc(run, prog, model)
     run.floor("CONSTRAINT", 30)
@@ -352,6 +357,42 @@ def loose_isclose(t: Any) -> Optional[str]:
                 return r
     return None
 
+
+
+def _decl_stores(run: Run, prog: Program, model: Model, tier: str) -> None:
+    """DECL-STORES: "meets every declared constraint" presupposes that a refinement call that is accepted stores its
+    argument.  On the declaration automaton, from the empty state, every accepting path of a well-typed call shape must
+    reach the same prop-set (the one the shape declares) with the prop bound to the argument: a path that accepts the
+    call and returns the schema unchanged has silently dropped the constraint."""
+    from ..automaton import build
+    n = 0
+    for st in model.concrete_builtin_schemas():
+        if st.name in ("ListSchema", "DictSchema", "AnySchema", "TypeAliasSchema", "GenericTypeAliasSchema"):
+            continue
+        ta = build(prog, model, st, tier)
+        for sh in ta.shapes:
+            if not sh.well_typed:
+                continue
+            outs = [o for o in ta.trans.get((frozenset(), sh.key), []) if o.kind == "ACCEPT" and o.new_state is not None]
+            if not outs:
+                continue
+            full = frozenset().union(*[o.new_state for o in outs])
+            site = st.cls.methods[sh.method].loc
+            c = f"{st.name}.{sh.label}: an accepted call stores what it was given"
+            n += 1
+            short = [o for o in outs if o.new_state != full]
+            unbound = [o for o in outs if o.new_state == full and any(
+                not any(a in v for a in (f"{sh.method}.", "call(")) and not v.startswith("'") for k, v in o.bindings if k in full)]
+            if short:
+                o = short[0]
+                cond = [("" if b else "not ") + k for k, b in o.preds][-1:]
+                run.violated("DECL-STORES", c, site, f"a path accepts the call and leaves {sorted(full - o.new_state)} undeclared"
+                             + (f" (when {cond[0][:70]})" if cond else ""),
+                             witness=f"schema.{st.facade_name or st.name}.{sh.label} returns a schema without that constraint; validate() never reports it")
+            else:
+                run.holds("DECL-STORES", c, site, f"every accepting path declares {sorted(full)}", nontrivial=len(outs) > 1)
+    run.analysed["decl_stores_shapes"] = n
+    run.floor("DECL-STORES", 15)
 
 def _dict_decl(run: Run, prog: Program, model: Model) -> None:
     """DICT-DECL: the verdict on a dict rests on the key table that DictSchema.__call__ builds: `optional(k): S` is stored
@@ -536,6 +577,59 @@ def _list_forms(run: Run, prog: Program, model: Model, tier: str) -> None:
     run.floor("TYPED-COVER", 1)
 
 
+
+def _member_visited(run: Run, prog: Program, model: Model, vis: str) -> None:
+    """MEMBER-VISITED: a container value conforms only if every present member conforms to ITS member schema.  On every
+    returning path of visit_list (exact element lists) and visit_dict (keyed tables), each declared member is either
+    dispatched to (member.__accept__(validator, ...)), reported missing, or absent by an established fact (optional key
+    not in the value).  A path that skips the nested visit - e.g. because the member `==` some pinned value - skips the
+    member's type check (1 == 1.0 == True)."""
+    f_l = model.visitors[vis].lookup("visit_list")
+    f_d = model.visitors[vis].lookup("visit_dict")
+    st_l, st_d = model.by_hook["visit_list"], model.by_hook["visit_dict"]
+    jobs: List[Tuple[str, Any, Config, List[str]]] = []
+    for name, mk in list_shapes(2):
+        toks = mk().items
+        if not toks or any(is_ell(x) for x in toks):
+            continue
+        jobs.append(("visit_list", f_l, Config(("elements",), {"elements": mk}, label=f"elements={name}"), [x.key() for x in toks]))
+    for name, mk in key_tables():
+        tbl = mk()
+        mem = [tv.items[0].key() for k, tv in tbl.pairs() if not is_ell(k)]
+        if mem:
+            jobs.append(("visit_dict", f_d, Config(("keys",), {"keys": mk}, label=f"keys={name}"), mem))
+    for hook, f, cfg, mem in jobs:
+        probs: List[str] = []
+        n = 0
+        for p in run_visit(prog, model, vis, hook, cfg, validator_ctx, unroll=1):
+            if p.outcome != "return":
+                continue
+            n += 1
+            acc = {e.data["recv"].key() for e in p.events if e.kind == "accept"}
+            # a path that reported a type / length error returned before looking at members
+            early = any(e.kind == "construct" and e.data.get("cls") is not None and e.data["cls"].name in (
+                "TypeValidationError", "LengthValidationError", "MinLengthValidationError", "MaxLengthValidationError") for e in p.events)
+            if early:
+                continue
+            missing_reported = sum(1 for e in p.events if e.kind == "construct" and e.data.get("cls") is not None
+                                   and e.data["cls"].name in ("MissingElementValidationError", "MissingKeyValidationError"))
+            absent = sum(1 for fk, t, b in p.facts if isinstance(t, Term) and t.op == "in" and not b and len(t.args) == 2
+                         and isinstance(t.args[1], V) and t.args[1].key() == "value")
+            unvisited = [m for m in mem if m not in acc]
+            if hook == "visit_list" and missing_reported:
+                continue            # the value ended: this and all later members are missing, one error says so
+            if len(unvisited) > missing_reported + absent:
+                cond = [("" if b else "not ") + k for k, _, b in p.facts][-1:]
+                probs.append(f"{len(unvisited) - missing_reported - absent} of the members {unvisited} is neither validated nor reported missing "
+                             f"on a returning path" + (f" (when {cond[0][:70]})" if cond else ""))
+        c = f"{vis}.{hook} {cfg.label}: every present member is dispatched to"
+        if probs:
+            run.violated("MEMBER-VISITED", c, f.loc, "; ".join(sorted(set(probs)))[:300],
+                         witness="validate(schema.list([schema.int(1)]), [1.0]) / validate(schema.dict({'id': schema.int(1)}), {'id': True}) has no errors")
+        elif n:
+            run.holds("MEMBER-VISITED", c, f.loc, f"{n} returning paths", nontrivial=True)
+    run.floor("MEMBER-VISITED", 6)
+
 def _sibling(run: Run, prog: Program, model: Model) -> None:
     """SubstitutorValidator.visit_list/visit_dict own rows == Validator's rows (minus MissingKey)."""
     for hook, props in (("visit_list", ("len", "min_len", "max_len")),):
@@ -554,37 +648,80 @@ def _sibling(run: Run, prog: Program, model: Model) -> None:
     run.floor("SIBLING", 3)
 
 
-def _result_acc(run: Run, prog: Program, model: Model) -> None:
+def _result_acc(run: Run, prog: Program, model: Model, rule: str = "RESULT-ACC") -> None:
+    """The accumulator every validator path reports through: for every sequence (length <= 3) of add_error(e),
+    add_errors([]) and add_errors([x, y]) - also on a result constructed with initial errors - get_errors() returns
+    exactly what was added, in order, and has_errors() is True iff that list is non-empty."""
+    import itertools
     ci = prog.cls("validation._validation_result.ValidationResult")
-    it = Interp(prog, model)
-    it.contracts.clear()
-    out: Dict[str, Any] = {}
+    bad: List[str] = []
+    n = 0
+    for init in (False, True):
+        for k in range(0, 4):
+            for seq in itertools.product("E02", repeat=k):
+                it = Interp(prog, model)
+                it.contracts.clear()
+                out: Dict[str, Any] = {}
+                want: List[str] = []
 
-    def run1(i: Interp) -> V:
-        r = i._construct(ci, [], {}, None)
-        e1, e2, e3 = Sym("e1"), Sym("e2"), Sym("e3")
-        out["empty"] = i.call_function(ci.lookup("has_errors"), [], {}, self_val=r)
-        i.call_function(ci.lookup("add_error"), [e1], {}, self_val=r)
-        i.call_function(ci.lookup("add_errors"), [ListV([e2, e3])], {}, self_val=r)
-        out["has"] = i.call_function(ci.lookup("has_errors"), [], {}, self_val=r)
-        return i.call_function(ci.lookup("get_errors"), [], {}, self_val=r)
-    ps = it.run_paths(run1)
-    ok = len(ps) == 1 and ps[0].outcome == "return" and isinstance(ps[0].value, ListV) and \
-        [x.key() for x in ps[0].value.items] == ["e1", "e2", "e3"] and \
-        isinstance(out.get("empty"), Const) and out["empty"].value is False and isinstance(out.get("has"), Const) and out["has"].value is True
-    if ok:
-        run.holds("RESULT-ACC", "ValidationResult", ci.loc, "add_error/add_errors append in order; has_errors iff non-empty; get_errors returns them", nontrivial=True)
+                def run1(i: Interp, seq: Any = seq, init: bool = init) -> V:
+                    want.clear()
+                    args: List[V] = []
+                    if init:
+                        args = [ListV([Sym("i0")])]
+                        want.append("i0")
+                    r = i._construct(ci, args, {}, None)
+                    c = 0
+                    for op in seq:
+                        if op == "E":
+                            c += 1
+                            i.call_function(ci.lookup("add_error"), [Sym(f"e{c}")], {}, self_val=r)
+                            want.append(f"e{c}")
+                        elif op == "0":
+                            i.call_function(ci.lookup("add_errors"), [ListV([])], {}, self_val=r)
+                        else:
+                            c += 2
+                            i.call_function(ci.lookup("add_errors"), [ListV([Sym(f"e{c-1}"), Sym(f"e{c}")])], {}, self_val=r)
+                            want.extend([f"e{c-1}", f"e{c}"])
+                    out["has"] = i.call_function(ci.lookup("has_errors"), [], {}, self_val=r)
+                    return i.call_function(ci.lookup("get_errors"), [], {}, self_val=r)
+                ps = it.run_paths(run1)
+                n += 1
+                label = ("ValidationResult([i0])" if init else "ValidationResult()") + "".join(
+                    {"E": ".add_error(e)", "0": ".add_errors([])", "2": ".add_errors([x, y])"}[o] for o in seq)
+                if not (len(ps) == 1 and ps[0].outcome == "return" and isinstance(ps[0].value, ListV)):
+                    bad.append(f"{label}: not a single returning path")
+                    continue
+                got = [x.key() for x in ps[0].value.items]
+                if got != want:
+                    bad.append(f"{label}: get_errors() is {got}, expected {want}")
+                h = out.get("has")
+                if not (isinstance(h, Const) and h.value is (len(want) > 0)):
+                    bad.append(f"{label}: has_errors() is {h.key() if h is not None else None} with {len(want)} error(s)")
+    if not bad:
+        run.holds(rule, "ValidationResult", ci.loc, f"{n} operation sequences: errors kept in order; has_errors iff non-empty", nontrivial=True)
     else:
-        run.violated("RESULT-ACC", "ValidationResult", ci.loc,
-                     f"accumulator lost or reordered errors: {ps[0].value.key()[:80] if ps and ps[0].value else None}",
-                     witness="validate(...) reports fewer errors than were found / has_errors() disagrees with get_errors()")
-    run.floor("RESULT-ACC", 1)
+        run.violated(rule, "ValidationResult", ci.loc, "; ".join(bad[:3])[:400],
+                     witness="validate(...) reports fewer errors than were found / has_errors() disagrees with get_errors(): "
+                             "format_result() is empty and eq() is True for a value with errors")
+    run.floor(rule, 1)
 
 
 V_ = "d42/validation/_validator.py"
 SV = "d42/substitution/_validator.py"
 SU = "d42/substitution/_substitutor.py"
 MUTANTS = [
+    {"name": "float min() ignores an infinite bound (seeded C02-K)", "rule": "DECL-STORES",
+     "edits": [("d42/declaration/types/_float_schema.py", "    def min(self, /, value: float) -> \"FloatSchema\":\n        if not isinstance(value, float):\n            raise make_invalid_type_error(self, value, (float,))\n",
+                "    def min(self, /, value: float) -> \"FloatSchema\":\n        if not isinstance(value, float):\n            raise make_invalid_type_error(self, value, (float,))\n        if value in (float(\"inf\"), float(\"-inf\")):\n            return self\n")]},
+    {"name": "members pinned to an equal value are not visited (seeded C14-K)", "rule": "MEMBER-VISITED",
+     "edits": [(V_, "                nested_path = deepcopy(path)[real_index]\n                res = element_schema.__accept__(self, value=val, path=nested_path, **kwargs)\n",
+                "                if element_schema.props.get(\"value\") == val:\n                    continue\n                nested_path = deepcopy(path)[real_index]\n                res = element_schema.__accept__(self, value=val, path=nested_path, **kwargs)\n")]},
+    {"name": "ValidationResult tracks failure in a flag that an empty batch resets (seeded C08-K)", "rule": "RESULT-ACC",
+     "edits": [("d42/validation/_validation_result.py", "        self._errors = errors if (errors is not None) else []\n", "        self._errors = errors if (errors is not None) else []\n        self._failed = len(self._errors) > 0\n"),
+               ("d42/validation/_validation_result.py", "        self._errors.append(error)\n        return self\n\n    def add_errors", "        self._errors.append(error)\n        self._failed = True\n        return self\n\n    def add_errors"),
+               ("d42/validation/_validation_result.py", "        for error in errors:\n            self._errors.append(error)\n        return self\n", "        for error in errors:\n            self._errors.append(error)\n        self._failed = len(errors) > 0\n        return self\n"),
+               ("d42/validation/_validation_result.py", "        return len(self._errors) > 0\n", "        return self._failed\n")]},
     {"name": "optional flag leaks from one dict entry to the following ones", "rule": "DICT-DECL",
      "edits": [("d42/declaration/types/_dict_schema.py", "            if isinstance(key, optional):\n                real_keys[key.key] = (val, True)\n            else:\n                real_keys[key] = (val, False)\n",
                 "            if isinstance(key, optional):\n                key, flag = key.key, True\n            real_keys[key] = (val, flag)\n"),
